@@ -183,6 +183,22 @@ def check(report: Report, repo: Repo) -> None:
                 report.add("R4-decay", f"{cons}::independent-decay[tensor-lr]", okw, "tensor lr: decay divided by float(<the scaled lr tensor stored in the group>)", fmt(w), "wd / float(stored lr)")
     except Unsupported as ex:
         report.add("R3-no-mutation", f"{cons}::tensor-lr", None, f"outside fragment: {ex}")
+    # ---- tensor learning rate with an allowed untagged parameter: its group must not hold the caller's tensor
+    # either (a scheduler updates group["lr"] in place)
+    p1, p2, p3, pu = mk()
+    tl2 = P("lr_tensor", ())
+    it.events = []
+    it.data_syms = {}
+    try:
+        res = it.call_function(f, [[p1, pu], adam], dict(lr=tl2, weight_decay=wd, allow_non_unit_scaling_params=True))
+        if isinstance(res, list) and len(res) == 2 and all(isinstance(g, dict) for g in res):
+            lrs = [g.get("lr") for g in res]
+            shared = [i for i, v in enumerate(lrs) if v is tl2 or (isinstance(v, TV) and TM.term_of(v) == tl2.term)]
+            report.add("R3-no-mutation", f"{cons}::tensor-lr-alias[untagged]", not shared and lrs[0] is not lrs[1], "tagged + allowed-untagged parameter, tensor lr: no output group holds the caller's lr tensor itself (each gets its own clone)", [fmt(TM.term_of(v)) for v in lrs], "clones of lr_tensor")
+        else:
+            report.add("R3-no-mutation", f"{cons}::tensor-lr-alias[untagged]", None if not isinstance(res, list) else False, f"expected 2 groups, got {fmt(res)[:200]}")
+    except Unsupported as ex:
+        report.add("R3-no-mutation", f"{cons}::tensor-lr-alias[untagged]", None, f"outside fragment: {ex}")
 
 
     # ---- R5: the same through the three optimizer classes (what a user actually constructs): the groups the torch
